@@ -106,7 +106,7 @@ Proof.
     reflexivity.
   - destruct v as [| | |[|[d| | |] [|[s| | |] [|[t| | |] [|? ?]]]]]; try discriminate.
     destruct (_ && _); [|discriminate]. intros [= <-]. reflexivity.
-  - destruct v as [|bs| |]; try discriminate. intros [= <-]. apply write_fixed_len.
+  - destruct v as [|bs| |]; try discriminate. destruct (_ && _); [|discriminate]. intros [= <-]. apply write_fixed_len.
   - destruct v as [| | |[|[h| | |] [|[l| | |] [|? ?]]]]; try discriminate.
     destruct (_ && _); [|discriminate]. destruct (_ || _); [discriminate|]. intros [= <-]. reflexivity.
   - destruct v as [g| | |]; try discriminate. destruct (g <? 256); [|discriminate].
@@ -264,7 +264,7 @@ Proof.
     cbn [andb]. intros [= <-]. rewrite Hdec. reflexivity.
   - (* game version *)
     destruct v as [|bs| |]; try discriminate. intros H. apply andb_prop in H as [H Hacc].
-    apply andb_prop in H as [Hl Hnz]. apply Nat.leb_le in Hl. intros [= <-].
+    apply andb_prop in H as [Hl Hnz]. rewrite Hl, Hacc. cbn [andb]. apply Nat.leb_le in Hl. intros [= <-].
     rewrite write_fixed_short by exact Hl. rewrite (trim_nul_end_app _ _ Hnz), Hacc. reflexivity.
   - (* nibble pair *)
     destruct v as [| | |[|[h| | |] [|[l| | |] [|? ?]]]]; try discriminate.
